@@ -312,6 +312,8 @@ def _open_call_token(
 ) -> tuple[bytes, str, bytes, bytes, bytes, str]:
     """Open and verify a call token.
 
+    Same as :func:`_open_call_token_dated` without the creation time.
+
     Args:
         token: The opaque token produced by :func:`_seal_call_token`.
         token_key: 32-byte master AEAD key.
@@ -321,6 +323,33 @@ def _open_call_token(
     Returns:
         ``(call_state_bytes, call_state_type, schema_bytes, input_schema_bytes,
         call_id, stream_id)``
+
+    Raises:
+        _RpcHttpError: As :func:`_open_call_token_dated`.
+
+    """
+    return _open_call_token_dated(token, token_key, aad, token_ttl)[:6]
+
+
+def _open_call_token_dated(
+    token: bytes,
+    token_key: bytes,
+    aad: bytes,
+    token_ttl: int = 0,
+) -> tuple[bytes, str, bytes, bytes, bytes, str, int]:
+    """Open and verify a call token, also returning when it was minted.
+
+    Args:
+        token: The opaque token produced by :func:`_seal_call_token`.
+        token_key: 32-byte master AEAD key.
+        aad: Associated data — must match the AAD used at seal time.
+        token_ttl: Maximum token age in seconds; ``0`` disables expiry.
+
+    Returns:
+        ``(call_state_bytes, call_state_type, schema_bytes, input_schema_bytes,
+        call_id, stream_id, created_at)`` — ``created_at`` in seconds since
+        the epoch, which is what bounds how long the resolved call may be
+        cached.
 
     Raises:
         _RpcHttpError: On malformed, tampered, expired, or cross-principal
@@ -359,10 +388,9 @@ def _open_call_token(
     if payload_end != len(plaintext):
         raise _RpcHttpError(RuntimeError("Malformed call token"), status_code=HTTPStatus.BAD_REQUEST)
 
-    if token_ttl > 0:
-        created_at = struct.unpack_from("<Q", plaintext, 0)[0]
-        if int(time.time()) - created_at > token_ttl:
-            raise _RpcHttpError(RuntimeError("Call token expired"), status_code=HTTPStatus.BAD_REQUEST)
+    created_at: int = struct.unpack_from("<Q", plaintext, 0)[0]
+    if token_ttl > 0 and int(time.time()) - created_at > token_ttl:
+        raise _RpcHttpError(RuntimeError("Call token expired"), status_code=HTTPStatus.BAD_REQUEST)
 
     return (
         call_state_bytes,
@@ -371,6 +399,7 @@ def _open_call_token(
         input_schema_bytes,
         call_id,
         stream_id_bytes.decode(),
+        created_at,
     )
 
 
@@ -395,7 +424,7 @@ class _ResolvedCall:
     :meth:`StreamState.bind_call_state` documents.
     """
 
-    __slots__ = ("call_state", "input_schema", "output_schema", "stream_id")
+    __slots__ = ("call_state", "created_at", "input_schema", "output_schema", "stream_id")
 
     def __init__(
         self,
@@ -403,7 +432,12 @@ class _ResolvedCall:
         output_schema: pa.Schema,
         input_schema: pa.Schema,
         stream_id: str,
+        created_at: int = 0,
     ) -> None:
+        # When the call token this was parsed from was minted.  The cache
+        # counts an entry's lifetime from here, not from when it was stored,
+        # so a cached call never outlives the token that names it.
+        self.created_at = created_at
         self.call_state = call_state
         self.output_schema = output_schema
         self.input_schema = input_schema
